@@ -53,6 +53,15 @@ Theorem c13_equal_number_text : forall (a : dec) (s : text) (d : dec), parse_num
 Proof. exact equal_num_text_spec. Qed.
 Print Assumptions c13_equal_number_text.
 
+(* the stored JSON form of a number (flows.Value.Number in contact fields and session JSON): what XNumber.MarshalJSON
+   writes - the number in full, however many digits - XNumber.UnmarshalJSON reads back as a numerically equal
+   number, for ALL decimals of the type (the reader's exponent limit is max(1000, length of the token), so it never
+   refuses a number written in full; it does refuse 1e300000000: Example num_unmarshal_huge_exponent) *)
+Theorem c13_stored_number_roundtrip : forall d : dec, (int32_min <= dexp d)%Z ->
+  exists d', num_unmarshal (num_marshal d) = Some d' /\ dec_eq d' d.
+Proof. exact num_unmarshal_marshal. Qed.
+Print Assumptions c13_stored_number_roundtrip.
+
 (* ================================================================================================ *)
 (* datetimes, dates, times.  An instant is a number of nanoseconds since the unix epoch; a time zone is ANY function
    [offset] from unix seconds to the UTC offset (seconds) in force (universally quantified: no zone data is assumed).
